@@ -1422,3 +1422,113 @@ func ruleBuilderMeasure(c *Ctx) {
 	}
 	c.note("C05-COL: %d measures of a builder that feed a padding count", n)
 }
+
+// ruleSentinelCollision (N-SENTINEL): the empty string as "no value given".  A function that (a) tests a string
+// parameter against "" to switch a filter off and (b) otherwise compares the same parameter with data, and that is
+// called with the literal "" at one site ("no filter") and with a run-time string at another, gives the run-time
+// caller the no-filter behaviour whenever its string happens to be empty - and an empty tag value (`; reviewed:`) is a
+// legitimate value.  The run-time site is fine if it is control dependent on a test of its argument against "".
+// (C20-m29: tag-name and tag-value counts folded into one function with tagValue == "" as the switch: hovering an
+// empty value reports the uses of the whole tag.)
+func ruleSentinelCollision(c *Ctx) {
+	if c.ranOnce("ruleSentinelCollision") {
+		return
+	}
+	isEmptyConst := func(v ssa.Value) bool {
+		k, ok := v.(*ssa.Const)
+		return ok && k.Value != nil && k.Value.ExactString() == `""`
+	}
+	n := 0
+	for _, f := range c.P.ModuleFuncs() {
+		if f.Parent() != nil {
+			continue
+		}
+		for idx, p := range f.Params {
+			bt, ok := p.Type().Underlying().(*types.Basic)
+			if !ok || bt.Info()&types.IsString == 0 {
+				continue
+			}
+			// the parameter and its captured copies in the function's closures
+			isP := func(v ssa.Value) bool {
+				v = stripConv(v)
+				if v == ssa.Value(p) {
+					return true
+				}
+				if ld, ok := v.(*ssa.UnOp); ok && ld.Op == token.MUL {
+					if fv, ok := ld.X.(*ssa.FreeVar); ok && fv.Name() == p.Name() {
+						return true
+					}
+				}
+				if fv, ok := v.(*ssa.FreeVar); ok && fv.Name() == p.Name() {
+					return true
+				}
+				return false
+			}
+			sentinel, comparand := false, false
+			fns := append([]*ssa.Function{f}, f.AnonFuncs...)
+			for _, g := range fns {
+				for _, b := range g.Blocks {
+					for _, ins := range b.Instrs {
+						bo, ok := ins.(*ssa.BinOp)
+						if !ok || (bo.Op != token.EQL && bo.Op != token.NEQ) {
+							continue
+						}
+						for _, pr := range [][2]ssa.Value{{bo.X, bo.Y}, {bo.Y, bo.X}} {
+							if !isP(pr[0]) {
+								continue
+							}
+							if isEmptyConst(pr[1]) {
+								sentinel = true
+							} else if _, isK := pr[1].(*ssa.Const); !isK {
+								comparand = true
+							}
+						}
+					}
+				}
+			}
+			if !sentinel || !comparand {
+				continue
+			}
+			nConst := 0
+			var dyn []ssa.CallInstruction
+			for _, site := range (cgView{c}).callersOf(f) {
+				if idx >= len(site.Common().Args) {
+					continue
+				}
+				a := site.Common().Args[idx]
+				if isEmptyConst(a) {
+					nConst++
+					continue
+				}
+				if _, isK := a.(*ssa.Const); isK {
+					continue
+				}
+				guarded := false
+				for _, cc := range controlCondsPol(site.Block()) {
+					if bo, ok := cc.Cond.(*ssa.BinOp); ok && (bo.Op == token.EQL || bo.Op == token.NEQ) {
+						for _, pr := range [][2]ssa.Value{{bo.X, bo.Y}, {bo.Y, bo.X}} {
+							if (stripConv(pr[0]) == stripConv(a) || sameLoad(pr[0], a)) && isEmptyConst(pr[1]) && (bo.Op == token.NEQ) == cc.Taken {
+								guarded = true
+							}
+						}
+					}
+				}
+				if !guarded {
+					dyn = append(dyn, site)
+				}
+			}
+			if nConst == 0 {
+				continue
+			}
+			n++
+			pos := f.Pos()
+			if len(dyn) > 0 {
+				pos = dyn[0].Pos()
+			}
+			c.check(len(dyn) == 0, "N-SENTINEL", funcName(f), "the empty string is not both a switch and a value of parameter "+p.Name(), pos,
+				"every caller that passes a run-time string has tested it against the empty string",
+				"parameter "+p.Name()+" is tested against \"\" to switch a filter off and is otherwise compared with data; one caller passes the literal \"\" for 'no filter', another passes a run-time string without testing it: when that string is empty - a tag written without a value has the legitimate value \"\" - the caller gets the unfiltered answer (the uses of the whole tag instead of the uses of the empty value)")
+		}
+	}
+	c.note("N-SENTINEL: %d parameters that are both a switch and a value", n)
+}
